@@ -26,26 +26,35 @@ SPEC = dict(
              'tot_cells_size, root_list, index, cells_data, including the CRC comparison and the trailing-bytes check. A change of any line of that '
              'function therefore breaks a proof obligation (the check then evaluates both functions in Lean on boundary bags and their corruptions and '
              'runs the conformance / rejection oracle on the differing inputs to produce a concrete replay) instead of having to be hit by a sample. '
-             'TIE TO THE SOURCE, first part of the cell record reader: c05_src_cell_layout - the statements of Boc.deserialize_cell before the data bits are '
-             'read (d1/d2 decoding, absent marker, popcount(level mask)+1 stored hashes and depths, the length check) are regenerated the same way and '
-             'proved equal, for all byte lists and index widths, to the first part of the hand model\'s deserializeCell, which is proved to be that part '
-             'followed by the rest. '
-             'The translator itself is validated on every change: Lean evaluation of the regenerated functions = CPython on ~350 structured header byte '
-             'strings and ~275 cell records. '
-             'TIE TO THE SOURCE, rest (second part of deserialize_cell: data bits, completion tag, exotic type byte, reference indices; the three loops of '
-             'deserialize; Boc.__init__): hand model + differential correspondence on '
+             'TIE TO THE SOURCE, cell record reader: c05_src_deserialize_cell - the WHOLE Boc.deserialize_cell is regenerated the same way by the loop / bit-list '
+             'extension of the translator (harness/translate/pyloops.py: bitarray(), frombytes, the completion-tag loop for j in range(-1, -8, -1) with break, '
+             'bits[:end] with end = None or a negative index, TvmBitarray(1023, ..), ba2int(.., signed=True), the reference-index loop with append, the returned '
+             '(dict, consumed)) and proved equal, for all byte lists and index widths, to the hand model\'s deserializeCell: same raise / return decision, same data '
+             'bits (completion tag removed), reference indices, cell type, consumed bytes (c05_src_cell_layout: the first part alone, kept). '
+             'TIE TO THE SOURCE, entry point: c05_src_deserialize - Boc.deserialize (call of the header parser on self.data, the cells loop, the reversed rebuild '
+             'loop with the inner reference loop, the topological-order check, the in-place result update, the roots loop) is regenerated as Py.loop? folds '
+             'with the loop-carried variables as state and proved equal, for all byte lists and EVERY cell constructor mk, to Model.BocParse.deserialize mk '
+             '(the constructor callback stays a parameter; a None child makes it raise: liftMk); c05_src_from_boc instantiates it with the constructor model. '
+             'So every theorem above is a theorem about the function regenerated from the current source, up to the cell constructor (C01/C02) and Boc.__init__. '
+             'The translators are validated on every change: Lean evaluation of the regenerated functions = CPython on ~350 structured header byte '
+             'strings, ~275 + ~1950 cell records and ~260 whole bags (Boc.deserialize with a test callback). A change of any line of these functions breaks a proof '
+             'obligation; the check then evaluates regenerated functions and hand model in Lean on the records of ~350 conforming boundary bags (every data '
+             'length around the byte boundaries with every tail, exotic cells, 0-4 references of every width, shared cells, several roots) and on their reference / '
+             'root corruptions and runs the conformance / rejection oracle, differing inputs first, to produce a concrete replay. '
+             'TIE TO THE SOURCE, rest (Boc.__init__: bytes / hex / base64 detection; the cell constructor): hand model + differential correspondence on '
              'conforming encodings from two independent encoders '
              '(Lean spec encoder through the driver, Python transcription in the harness), on every truncation/extension, all single-bit flips, '
              'reference/root/magic corruptions and random byte mutations.',
-        level_note='Trusted: Lean kernel (propext, Classical.choice, Quot.sound); for the header parser: the bytes-program translator pybytes.py/pyarith.py '
-                   'and its reading of the Python built-ins (TonVerif/PyBytes.lean: slice, range, unpacking; natOfBE = int.from_bytes big), validated '
-                   'differentially against CPython whenever source, translator or output change; for the second part of deserialize_cell / deserialize / Boc.__init__: '
+        level_note='Trusted: Lean kernel (propext, Classical.choice, Quot.sound); for the header parser, the cell reader and the loops of deserialize: the translators '
+                   'pybytes.py / pyloops.py / pyarith.py and their reading of the Python built-ins (TonVerif/PyBytes.lean: slice, range, unpacking, Py.loop? = for loop with break, '
+                   'negative indices / slices, bitarray frombytes / ba2int, TvmBitarray; natOfBE = int.from_bytes big; value semantics of lists under the aliasing rule), validated '
+                   'differentially against CPython whenever source, translator or output change; for Boc.__init__: '
                    'Model/BocParse.lean as a faithful hand transcription of '
                    'deserialize.py (sampled correspondence only: accept/reject and canonical root DAG listing on every generated input); '
                    'Spec/BocEncode.lean as a faithful reading of boc.tlb + the reference cell record layout; Model/Cell.lean for the constructor; '
                    'CRC theorem uses the translated crc32c (C18 tie). Input-form detection (hex/base64 text) is modelled for canonical texts only.',
-        technique='Lean 4 proof; header parser and first part of the cell reader regenerated from the source on every run and proved equal to the hand model for all inputs; '
-                  'rest: hand model + differential correspondence with the library',
+        technique='Lean 4 proof; header parser, cell reader and Boc.deserialize (all loops) regenerated from the source on every run and proved equal to the hand model for all inputs; '
+                  'Boc.__init__ and the cell constructor: hand model + differential correspondence with the library',
     ),
     translators=[('deserialize.py deserialize_boc_header, deserialize_cell, deserialize (+utils.bytes_to_uint, magics)->Generated/BocHeader.lean, BocCells.lean', boccells.regenerate)],
     design_ref='DESIGN.md §6 C05',
@@ -54,14 +63,15 @@ SPEC = dict(
          'stored hashes, 1-3 roots, extra unreachable cells, random forward order); negative: every truncation point, 1-8 byte extensions, all '
          'single-bit flips of CRC-protected bags, reference rewrites (dangling/backward/self), root index >= cells, magic rewrites; '
          'distinct = distinct byte string; non-trivial = bag with >= 2 cells or non-empty data',
-    trusted_base=['Model/BocParse.lean mirrors the second part of deserialize_cell, deserialize and Boc.__init__ by hand (deserialize_boc_header and the first part of deserialize_cell: regenerated + proved equal, c05_src_header / c05_src_cell_layout)',
-                  'harness/translate/pybytes.py + pyarith.py (Python bytes-program subset -> Lean) and TonVerif/PyBytes.lean (meaning of slice / range / unpacking)',
+    trusted_base=['Model/BocParse.lean mirrors Boc.__init__ by hand (deserialize_boc_header, deserialize_cell, deserialize: regenerated + proved equal, c05_src_header / c05_src_deserialize_cell / c05_src_deserialize)',
+                  'harness/translate/pybytes.py + pyloops.py + pyarith.py (Python bytes-program subset with loops, bit lists, record lists, callbacks -> Lean) and TonVerif/PyBytes.lean (meaning of slice / range / unpacking / loops / bitarray operations)',
                   'Spec/BocEncode.lean transcribes boc.tlb and DataCell::serialize (with_hashes) by hand',
                   'Model/Cell.lean (constructor model, C01/C02) is reused for cls(bits, refs, type)',
                   'SHA-256 is an abstract parameter H in all theorems; CRC-32C is the translated library code (C18)'],
     assumptions=['bitarray frombytes / slicing / ba2int behave as modelled', 'bytes slicing never raises, indexing past the end raises',
                  'None children make the Cell constructor raise for every cell type',
-                 'correspondence is sampled differential testing of model vs library (everything except deserialize_boc_header and the first part of deserialize_cell)',
+                 'correspondence is sampled differential testing of model vs library (Boc.__init__ and the cell constructor; the parser functions are regenerated and proved equal)',
+                 'no list / bitarray / dict of the translated functions is changed through one name and read through another (checked syntactically by the translator: frozen names)',
                  'deserialize_boc_header is called with a bytes object; its exceptions are not distinguished (raise = none)'],
 )
 
